@@ -54,6 +54,15 @@ CLAIMED = {
          "state with a reference server over histories is NOT decided.",
     technique="CFG dominance / cycle queries on the sender, intra-class call-graph ownership, finite-domain path enumeration",
     ref="4/C15"),
+ "C14": dict(
+    text="Dominance facts over the emulated branch of renamescript that hold for every server behaviour at every step: R1 delete(old) only on the "
+         "success edge of put(new) and (when old was active) of setactive(new); R2 put(new) only after new was tested absent against both listing "
+         "components (active name and other names); R3 the uploaded content is the unmodified, None-tested result of getscript(old); R4 only the "
+         "parameters old/new, unmodified and in their roles, reach server operations; R5 a None listing is tested before unpacking; R6 finite-domain "
+         "enumeration of all step outcomes: True iff the delete succeeded, other exits False/Error, no step out of order; R7 native RENAMESCRIPT "
+         "(old,new) iff the capability is announced. Substantially decides the client side; content equality and server atomicity are not decided.",
+    technique="CFG dominance with edge facts on call outcomes + def-use of the content/name arguments + finite-domain path enumeration",
+    ref="4/C14"),
 }
 NA = {}
 
